@@ -329,7 +329,8 @@ func (c LibConn) Read(b []byte) (int, error) {
 			p.markFailed(idx, false)
 			return 0, io.EOF
 		}
-		if !notified {
+		if !notified && limited && room <= 0 {
+			// the peer has fallen silent for good: tell the harness
 			notified = true
 			p.notifyBlocked()
 		}
